@@ -62,6 +62,8 @@ type Verifier struct {
 	fieldInvs       map[string]*FieldInv // heap key -> invariant
 	autoFrameOff    map[string]bool
 	scratch         *Enc
+	globNonNil      map[*ssa.Global]bool
+	immutableKeys   map[string]bool
 	autoFrameKept   map[string]bool
 }
 
@@ -82,6 +84,7 @@ func loadVerifier(repoDir string) (*Verifier, error) {
 	v.refLangs = referenceLanguages()
 	v.autoFrameOff = map[string]bool{}
 	v.autoFrameKept = map[string]bool{}
+	v.globNonNil = map[*ssa.Global]bool{}
 	cfg := &packages.Config{Mode: packages.LoadAllSyntax, Dir: repoDir, BuildFlags: []string{"-tags=verif"}}
 	cfg.Env = append(os.Environ(), "PATH=/opt/veriftools/go1.26.8/bin:"+os.Getenv("PATH"), "GOTOOLCHAIN=local", "GOFLAGS=-mod=mod", "GOPROXY=off", "GOSUMDB=off")
 	pkgs, err := packages.Load(cfg, "./wamp/...", "./router/...", "./transport/...", "./client/...", "./stdlog/...")
@@ -127,6 +130,37 @@ func loadVerifier(repoDir string) (*Verifier, error) {
 				v.db.parseContractFile(f, p.PkgPath)
 			}
 		}
+	}
+	v.immutableKeys = map[string]bool{}
+	for _, im := range v.db.Immutable {
+		pkg := v.pkgByPath[im.Pkg]
+		tn := im.Type
+		if i := strings.Index(tn, "."); i >= 0 {
+			pkg = v.pkgByName[tn[:i]]
+			tn = tn[i+1:]
+		}
+		if pkg == nil || pkg.Scope().Lookup(tn) == nil {
+			v.db.Errors = append(v.db.Errors, fmt.Sprintf("%s:%d: immutable: unknown type %s", im.File, im.Line, im.Type))
+			continue
+		}
+		o := pkg.Scope().Lookup(tn)
+		st, ok := o.Type().Underlying().(*types.Struct)
+		if !ok {
+			continue
+		}
+		for i := 0; i < st.NumFields(); i++ {
+			for _, f := range im.Fields {
+				if f == "*" || f == st.Field(i).Name() {
+					if _, nested := st.Field(i).Type().Underlying().(*types.Struct); nested {
+						continue
+					}
+					v.immutableKeys[fmt.Sprintf("F:%s:%d:%s", structKey(o.Type()), i, st.Field(i).Name())] = true
+				}
+			}
+		}
+	}
+	for k := range v.immutableKeys {
+		immutableHeapKeys[k] = true
 	}
 	v.fieldInvs = map[string]*FieldInv{}
 	for _, fi := range v.db.FieldInvs {
@@ -183,7 +217,21 @@ func (v *Verifier) inRepo(fn *ssa.Function) bool {
 	return fn.Pkg != nil && strings.HasPrefix(fn.Pkg.Pkg.Path(), repoMod)
 }
 
-func (v *Verifier) autoInline(fn *ssa.Function) bool { return false }
+// autoInline: tiny leaf functions (one block, no calls, no stores) are
+// expanded at call sites instead of being abstracted.
+func (v *Verifier) autoInline(fn *ssa.Function) bool {
+	if len(fn.Blocks) != 1 || len(fn.Blocks[0].Instrs) > 8 {
+		return false
+	}
+	for _, ins := range fn.Blocks[0].Instrs {
+		switch ins.(type) {
+		case *ssa.Return, *ssa.FieldAddr, *ssa.UnOp, *ssa.DebugRef, *ssa.ChangeType, *ssa.Convert, *ssa.Field, *ssa.BinOp, *ssa.MakeInterface:
+		default:
+			return false
+		}
+	}
+	return true
+}
 
 func (v *Verifier) checkClosed(e *Enc) bool {
 	return e.contract != nil && v.closedCheck[e.contract.Key]
@@ -809,6 +857,10 @@ func (v *Verifier) verifyFuncOnce(fn *ssa.Function, con *Contract) (unit *Unit) 
 	}
 	for _, fv := range fn.FreeVars {
 		val := e.freshValue(st, "fv_"+fv.Name(), fv.Type())
+		if _, isPtr := fv.Type().Underlying().(*types.Pointer); isPtr {
+			// a captured variable's cell always exists
+			st.assume("(> " + val.term + " 0)")
+		}
 		fr.vals[fv] = val
 		vars["&"+fv.Name()] = val
 	}
@@ -821,6 +873,9 @@ func (v *Verifier) verifyFuncOnce(fn *ssa.Function, con *Contract) (unit *Unit) 
 	}
 	if con != nil {
 		for _, r := range con.Requires {
+			st.assume(e.evalClauseAssume(pre, r))
+		}
+		for _, r := range con.Captures {
 			st.assume(e.evalClauseAssume(pre, r))
 		}
 		for _, r := range con.Assumes {
@@ -1016,4 +1071,50 @@ func (v *Verifier) writeQuery(u *Unit, o *Obligation, dir string, logic string, 
 	}
 	path := filepath.Join(dir, sanitize(o.Name)+suffix)
 	return path, os.WriteFile(path, []byte(b.String()), 0o644)
+}
+
+// globalInitNonNil: a package-level variable that is assigned exactly once,
+// in its package initialiser, with a value that is never nil.
+func (v *Verifier) globalInitNonNil(g *ssa.Global) bool {
+	if r, ok := v.globNonNil[g]; ok {
+		return r
+	}
+	res := false
+	defer func() { v.globNonNil[g] = res }()
+	init := g.Pkg.Func("init")
+	if init == nil {
+		return false
+	}
+	n := 0
+	for fn := range v.allFuncs() {
+		for _, b := range fn.Blocks {
+			for _, ins := range b.Instrs {
+				st, ok := ins.(*ssa.Store)
+				if !ok || st.Addr != ssa.Value(g) {
+					continue
+				}
+				if fn != init {
+					return false
+				}
+				n++
+				switch val := st.Val.(type) {
+				case *ssa.MakeInterface, *ssa.Alloc, *ssa.MakeMap, *ssa.MakeChan, *ssa.MakeClosure, *ssa.Function:
+				case *ssa.Call:
+					sc := val.Common().StaticCallee()
+					if sc == nil {
+						return false
+					}
+					switch sc.String() {
+					case "errors.New", "fmt.Errorf", "regexp.MustCompile":
+					default:
+						return false
+					}
+				default:
+					return false
+				}
+			}
+		}
+	}
+	res = n == 1
+	return res
 }
